@@ -260,6 +260,7 @@ func c18Step(t c18Type, program [][]string) (clause, detail string, st *model.St
 }
 
 func c18Run(c *fw.Ctx) {
+	c18Index(c)
 	depth := 4
 	if c.Thorough() {
 		depth = 7
@@ -362,6 +363,18 @@ func (u *c18Unit) step(c *fw.Ctx, d int) bool {
 }
 
 func c18Replay(raw json.RawMessage) (string, bool, error) {
+	var probe struct {
+		Kind string `json:"kind"`
+	}
+	json.Unmarshal(raw, &probe)
+	if probe.Kind == "index" {
+		var ic c18IndexCase
+		if err := json.Unmarshal(raw, &ic); err != nil {
+			return "", false, err
+		}
+		clause, detail := c18IndexCheck(ic)
+		return fmt.Sprintf("setup=%q cmd=%q clause=%q %s", ic.Setup, ic.Cmd, clause, detail), clause != "", nil
+	}
 	var cs c18Case
 	if err := json.Unmarshal(raw, &cs); err != nil {
 		return "", false, err
